@@ -83,7 +83,15 @@ Parse == /\ op = "init" /\ op' = "parse"
                  /\ res' = IF fd = 0 THEN (IF k = 0 THEN ParseInt(s, ip) ELSE [ok |-> FALSE])
                            ELSE ParseDec(s, ip, fp, fd)
          /\ UNCHANGED <<a, b>>
-Next == Cmp \/ Unary \/ Parse
+\* literals with a very long fraction part (more than 255 digits): they never fit a precision of at most 18
+LongLits == { [ip |-> <<0>>, fp |-> Zeros(255) \o <<1>>], [ip |-> <<1>>, fp |-> Zeros(256)], [ip |-> <<1,2>>, fp |-> Zeros(299) \o <<5>>],
+              [ip |-> <<7>>, fp |-> Zeros(19)], [ip |-> <<0>>, fp |-> Zeros(18) \o <<1>>] }
+ParseLong == /\ op = "init" /\ op' = "parse"
+             /\ \E x \in LongLits, s \in Signs, fd \in FDs \ {0} :
+                  /\ lit' = [sign |-> s, ip |-> x.ip, fp |-> x.fp, fd |-> fd]
+                  /\ res' = ParseDec(s, x.ip, x.fp, fd)
+             /\ UNCHANGED <<a, b>>
+Next == Cmp \/ Unary \/ Parse \/ ParseLong
 Spec == Init /\ [][Next]_vars
 
 \* ---- laws checked on the model itself ------------------------------------------
